@@ -31,6 +31,7 @@ pub fn profile(name: &str) -> GenCfg {
         }
         "c03" => {
             c.name = "c03";
+            c.kept_shape = 4;
             c.sibling_shape = 6;
             c.mapref_shape = 0;
         }
